@@ -642,15 +642,15 @@ impl ArrayImpl {
         })
     }
 
-    /// Returns the sum of values.
+    /// Returns the sum of the non-null values (the raw slot under a NULL is not a value).
     pub fn sum(&self) -> DataValue {
         match self {
-            Self::Int16(a) => DataValue::Int16(a.raw_iter().sum()),
-            Self::Int32(a) => DataValue::Int32(a.raw_iter().sum()),
-            Self::Int64(a) => DataValue::Int64(a.raw_iter().sum()),
-            Self::Float64(a) => DataValue::Float64(a.raw_iter().sum()),
-            Self::Decimal(a) => DataValue::Decimal(a.raw_iter().sum()),
-            Self::Interval(a) => DataValue::Interval(a.raw_iter().sum()),
+            Self::Int16(a) => DataValue::Int16(a.nonnull_iter().sum()),
+            Self::Int32(a) => DataValue::Int32(a.nonnull_iter().sum()),
+            Self::Int64(a) => DataValue::Int64(a.nonnull_iter().sum()),
+            Self::Float64(a) => DataValue::Float64(a.nonnull_iter().sum()),
+            Self::Decimal(a) => DataValue::Decimal(a.nonnull_iter().sum()),
+            Self::Interval(a) => DataValue::Interval(a.nonnull_iter().sum()),
             _ => panic!("can not sum array"),
         }
     }
